@@ -31,4 +31,8 @@ META = {
                     "checked to be the additive group exactly.",
             "note": "Parts are the reference (they are judged by C01-C05); offsets come from the oracle layouts. Sampled executions only.",
             "technique": "runtime monitoring: differential monitor bundle-vs-parts with independent bookkeeping + ASan/UBSan"},
+    "C17": {"text": "Exploration: SE_K_3<1> vs SE3 operation-for-operation (<= 4 ulp of the largest entry), SE_K_3<2> vs Galilei at tau = 0 through the "
+                    "documented embedding, lifts/projections as homomorphisms against explicit matrix embeddings, C1 factorisation, rot_x/y/z vs expm, "
+                    "quaternion/isometry/complex/Euler (12 conventions) round trips, SO2 angle ranges and congruence incl. signed zeros and atan2 cuts.",
+            "note": _ALG_NOTE, "technique": "runtime monitoring: differential + reference-model oracle over hostile inputs, ASan/UBSan"},
 }
